@@ -101,6 +101,33 @@ def act_keep(path, fn_name, data="data", cache=None):
     return run
 
 
+def act_keep_twice(path, fn_name, cache=None):
+    """One process, one long-lived store object: the same keep twice; between the two an operation on the marker
+    file MARK_second_keep makes the boundary visible in the recorded operation order."""
+    def run(root):
+        set_local(root, "data", cache)
+        a = dds.keep(path, globals()[fn_name])
+        os.path.exists(os.path.join(root, "MARK_second_keep"))
+        b = dds.keep(path, globals()[fn_name])
+        return (a, b)
+
+    run.__name__ = "keep-twice(%s,%s%s)" % (path, fn_name, "" if cache is None else ",cache_objects=%r" % cache)
+    return run
+
+
+def act_load_twice(path, cache=None):
+    """One long-lived store object loads the same path twice (marker operation in between)."""
+    def run(root):
+        set_local(root, "data", cache)
+        a = dds.load(path)
+        os.path.exists(os.path.join(root, "MARK_second_load"))
+        b = dds.load(path)
+        return (a, b)
+
+    run.__name__ = "load-twice(%s%s)" % (path, "" if cache is None else ",cache_objects=%r" % cache)
+    return run
+
+
 def frame_value():
     import pandas as pd
 
